@@ -1107,7 +1107,8 @@ def builderCompile (chains : List Chain) (features : List FeatRange) : List (Lis
 abbrev FeatTable := Nat → Option (Nat × Bool)
 
 /-- src: hb_aat_map_builder_t::add_feature for one user feature (tag, value, start, end).
-    `none` for the D11 panic (`u16::try_from(value).unwrap()`). -/
+    The `aalt` value is truncated to u16 (`feature.value as u16`, the repair of D11; before it
+    `u16::try_from(value).unwrap()` panicked). -/
 def addFeature (feat : Option FeatTable) (tag value start end_ : Nat) : M (List FeatRange) := do
   match feat with
   | none => return []
@@ -1118,8 +1119,7 @@ def addFeature (feat : Option FeatTable) (tag value start end_ : Nat) : M (List 
         | some (n, _) => n != 0
         | none => false
       if !exposes then return []
-      if value ≥ 65536 then throw .assert
-      acc := acc ++ [⟨⟨FEATURE_TYPE_CHARACTER_ALTERNATIVES, value, true⟩, start, end_⟩]
+      acc := acc ++ [⟨⟨FEATURE_TYPE_CHARACTER_ALTERNATIVES, value % 65536, true⟩, start, end_⟩]
     match featureMappings.find? (fun r => r.1 == tag) with
     | none => return acc
     | some (_, ty, en, dis) =>
